@@ -83,6 +83,9 @@ ASSUMPTIONS = [
 COQ_DEPS = ["Corr/HeatCorr.vo", "Corr/RegenTac.vo"]
 
 
+EXTRA_OBLIGATIONS_ASYNC = True    # compiled while the correspondence runs
+
+
 def extra_obligations(tier):
     """Second tie (DESIGN 12.7): the summand, loop nest and normalisation of evalHeatKernel and heat()'s clamped combination
     of the three kernel values are re-translated from the current heat.py and proved equal to Model/HeatM.v."""
